@@ -7,7 +7,7 @@ VERIF = os.path.dirname(os.path.dirname(os.path.abspath(__file__)))
 CHECKS = {
     'C01': dict(
         technique='TLA+ Earley worklist machine model-checked against an LFP language definition (TLC) + batch trace validation of real accept/reject outcomes and chart columns by TLC',
-        text='TLC proves on the bounded family F_bnf that every behaviour of the Earley machine (any worklist order) accepts exactly the least-fixpoint language; the same TLA+ language definition then judges the real accept/reject outcome of every grammar of that family and of an overlapping-terminal family under all three Earley lexers, and the real chart columns are compared with the machine.',
+        text='TLC proves on the bounded family F_bnf that every behaviour of the Earley machine (any worklist order) accepts exactly the least-fixpoint language; the same TLA+ language definition then judges the real accept/reject outcome of every grammar of that family and of an overlapping-terminal family under all three Earley lexers, and the real chart columns are compared with the machine. An EBNF family (random grammars with ? * + ~n..m [..] groups, inlined and ! rules) is judged for acceptance against the denotational EBNF.tla meaning, a nullable-chain family exercises held completions, and XEarley.tla model-checks the dynamic scanner (delayed matches, ignore carry-over) against the character-level language.',
         note='bounded families (<=3 rules/<=4 in thorough, inputs <=5); Python re trusted for single-terminal matching; greedy-not-longest regexps excluded by the reading',
         ref='6/C01'),
 }
@@ -20,7 +20,7 @@ CHECKS['C02'] = dict(
 
 CHECKS['C08'] = dict(
     technique='TLA+ viable-prefix / next-terminal definitions (LFP over open spans) with Earley and LALR error branches model-checked against them (TLC) + trace validation of every real rejection (class, position, expected/allowed/accepts)',
-    text='TLC proves on F_bnf that the Earley machine and the LALR driver stop at the first token after which the prefix is not viable (productive / reduced conflict-free grammars) and expect exactly the legal next terminals; the same TLA+ definitions judge class, pos_in_stream, expected/allowed and accepts of every rejection the real lark raises on F_bnf, F_rand and inputs with ignored and unknown characters under five parser/lexer pairs (CYK sampled).',
+    text='TLC proves on F_bnf that the Earley machine and the LALR driver stop at the first token after which the prefix is not viable (productive / reduced conflict-free grammars) and expect exactly the legal next terminals; the same TLA+ definitions judge class, pos_in_stream, expected/allowed and accepts of every rejection the real lark raises on F_bnf, F_rand and inputs with ignored and unknown characters under five parser/lexer pairs (CYK sampled). A look-ahead-merging family (grammars whose acceptable set depends on the whole stack, all terminal permutations, every input through one parser instance) pins accepts()/expected after merged reduce states.',
     note='single-character terminals so that offsets are certain; LALR on S/R or non-reduced grammars judged against the automaton of LALR.tla; two known findings (non-reduced grammars, LALR loop)',
     ref='6/C08')
 
@@ -31,35 +31,35 @@ CHECKS['C07'] = dict(
     ref='6/C07')
 CHECKS['C06'] = dict(
     technique='TLA+ LineCounter machine model-checked against the newline-count definition of coordinates (TLC) + trace validation of real token coordinates (four lexers, str/bytes) and Tree.meta spans',
-    text='TLC proves that the LineCounter machine yields exact coordinates iff every newline-matching token is fed with the newline test on (the flag obligation); the same Coord definition then judges line/column/end_line/end_column of every token the real basic and contextual lexers yield on newline-heavy terminal sets (\\W \\D [\\x00-\\x20] \\012 (?s:.) ...), of every token inside parse trees under all four lexers for str and bytes, and Tree.meta (first-to-last matched token incl. filtered ones, children ordered/disjoint/nested).',
+    text='TLC proves that the LineCounter machine yields exact coordinates iff every newline-matching token is fed with the newline test on (the flag obligation); the same Coord definition then judges line/column/end_line/end_column of every token the real basic and contextual lexers yield on newline-heavy terminal sets (\\W \\D [\\x00-\\x20] \\012 (?s:.) ...), of every token inside parse trees under all four lexers for str and bytes, and Tree.meta (first-to-last matched token incl. filtered ones, children ordered/disjoint/nested). MC_TreeBuilder model-checks the span and container laws of PropagatePositions over all nestings of a catalogue of rule shapes (and refutes the span law where a ?rule returns a bare token - a known finding confirmed on the real parser); the span law is then judged in TLC at the grain of every real LALR reduction, with the extent of a node computed through the recorded reductions; results obtained through interactive forks (copy/as_immutable + resume_parse/exhaust_lexer) are included.',
     note='token extents and newline offsets are read off the text; end-coordinate convention per lexer family as stated',
     ref='6/C06')
 
 CHECKS['C03'] = dict(
     technique='TLA+ denotational semantics of lark EBNF with the documented shaping (EBNF.tla, known answers from the docs checked by TLC) + trace validation of every tree returned by every parser/lexer pair and option setting',
-    text='EBNF.tla defines, independently of lark\'s BNF compilation and tree builder, the set of shaped trees of an input for a grammar as written (?, !, _, aliases, [..] placeholders, ? * + ~n..m, groups); TLC first checks it against the examples of docs/tree_construction.md and the count laws, then judges every tree the real lark returns on random EBNF grammars (depth<=3, <=3 rules) under Earley (3 lexers), LALR (2 lexers) and CYK with keep_all_tokens/maybe_placeholders on and off: the tree must be one of the shaped derivations, hence all engines agree when there is one.',
+    text='EBNF.tla defines, independently of lark\'s BNF compilation and tree builder, the set of shaped trees of an input for a grammar as written (?, !, _, aliases, [..] placeholders, ? * + ~n..m, groups); TLC first checks it against the examples of docs/tree_construction.md and the count laws, then judges every tree the real lark returns on random EBNF grammars (depth<=3, <=3 rules) under Earley (3 lexers), LALR (2 lexers) and CYK with keep_all_tokens/maybe_placeholders on and off: the tree must be one of the shaped derivations, hence all engines agree when there is one. One level below, TreeBuilder.tla specifies the rule callback chain (child filter with placeholders, splicing of _rules, ?rule, PropagatePositions); every reduction of the real LALR parser is recorded (rule, children, result) and must equal Callback(rule, children) in TLC (drift level, drifting cases re-judged on the returned tree).',
     note='token level (single-character terminals), grammars with derivation cycles excluded (the oracle enumerates derivations); conventions (a)-(c) of DESIGN 6/C03',
     ref='6/C03')
 CHECKS['C04'] = dict(
     technique='same EBNF.tla oracle: TLC expands the _ambig nodes of the real ambiguity=explicit result and compares the set with the set of shaped derivations; cyclic BNF grammars: every tree checked to be a derivation tree (CFG-level validity operator)',
-    text='For every grammar/input/option setting of the EBNF family and of F_bnf/F_rand (acyclic) TLC computes Expand(result) and the set of all shaped derivations from EBNF.tla: none may be missing, none spurious; CollapseAmbiguities must agree with the expansion; for cyclic grammars parsing must terminate within the budget and every expanded tree must be a derivation tree of the input.',
+    text='For every grammar/input/option setting of the EBNF family and of F_bnf/F_rand (acyclic) TLC computes Expand(result) and the set of all shaped derivations from EBNF.tla: none may be missing, none spurious; CollapseAmbiguities must agree with the expansion; for cyclic grammars parsing must terminate within the budget and every expanded tree must be a derivation tree of the input. Overlapping multi-character terminals (F_mtok): the harness enumerates every tokenisation of the text per lexer mode and TLC unions their derivations (TreesOfText), which makes \'ambiguity inside terminals\' under dynamic_complete decidable; the explicit-ambiguity callback chain (AmbiguousExpander, AmbiguousIntermediateExpander) is specified in TreeBuilder.tla (CallbackAmb) and every real Earley callback invocation is validated against it; a directed family combines ambiguous rule prefixes with ambiguous inlined children.',
     note='completeness compared up to the first-empty-spelling convention (Canon); derivation sets above the size TLC enumerates comfortably are avoided by short inputs (<=5 tokens)',
     ref='6/C04')
 
 CHECKS['C09'] = dict(
     technique='TLA+ transcription of small_factors/_generate_repeats over count sets model-checked for all 0<=n<=m<=B (TLC) + trace validation of the really generated rules (derived count sets as a fixpoint), terminal form, and parses around the bounds judged by EBNF.tla',
-    text='TLC proves that the factored helper-rule construction matches exactly n..m for every pair up to B (150 quick / 400 thorough) including the loop invariant target_opt = 0..target-1; the rules the real lark generates for X~n..m are read back and TLC derives their count set as a least fixpoint; parses of x^k around the bounds for x a terminal, anonymous token, group, alternative group, optional group, rule, inlined rule and template argument are judged by the EBNF oracle (accept/reject, k consecutive children, no helper nodes) under Earley and LALR.',
+    text='TLC proves that the factored helper-rule construction matches exactly n..m for every pair up to B (150 quick / 400 thorough) including the loop invariant target_opt = 0..target-1; the rules the real lark generates for X~n..m are read back and TLC derives their count set as a least fixpoint; parses of x^k around the bounds for x a terminal, anonymous token, group, alternative group, optional group, rule, inlined rule and template argument are judged by the EBNF oracle (accept/reject, k consecutive children, no helper nodes) under Earley and LALR. Inside terminals: random terminal-level expressions are compiled by lark and the language of the compiled pattern (re.fullmatch) is judged by TLC against the EBNF.tla meaning of the same expression (LANG judgement).',
     note='0<=n<=m only; terminals that can match the empty string excluded as stated',
     ref='6/C09')
 CHECKS['C20'] = dict(
     technique='TLA+ machine of ForestVisitor.visit model-checked on all small graphs incl. cyclic (termination as liveness under fairness) + trace validation of real visit() callback sequences (synthetic graphs and real SPPFs) + TreeForestTransformer results judged against the derivation-set oracle',
-    text='TLC proves on every graph with 3 inner nodes and a token leaf (successor lists with repetitions, both single_visit settings) that the walk terminates, keeps no node twice on the path, reports cycles exactly on back edges; the callback sequence of the real visit() on the same graphs, on random larger graphs and on the real forests of parses (cyclic grammars included) must be exactly the machine\'s; TreeForestTransformer(resolve_ambiguity=False) expanded must equal the set of unshaped derivation trees of the compiled rules (EBNF.tla over lark\'s compiled rules), resolve_ambiguity=True one of them, is_ambiguous false on single derivations; cyclic grammars: termination and every tree a valid derivation tree.',
+    text='TLC proves on every graph with 3 inner nodes and a token leaf (successor lists with repetitions, both single_visit settings) that the walk terminates, keeps no node twice on the path, reports cycles exactly on back edges; the callback sequence of the real visit() on the same graphs, on random larger graphs and on the real forests of parses (cyclic grammars included) must be exactly the machine\'s; TreeForestTransformer(resolve_ambiguity=False) expanded must equal the set of unshaped derivation trees of the compiled rules (EBNF.tla over lark\'s compiled rules), resolve_ambiguity=True one of them, is_ambiguous false on single derivations; cyclic grammars: termination and every tree a valid derivation tree. The overlapping-terminal family F_mtok (tokenisations enumerated, ignores overlapping terminals, directed one-symbol start rules over terminals with optional tails) judges forests under dynamic and dynamic_complete: soundness and the derivation count position-exact, completeness modulo token positions (lark merges token nodes by type and text).',
     note='unshaped derivations are over the compiled rules (C03 judges the compilation); three Earley lexers',
     ref='6/C20')
 
 CHECKS['C05'] = dict(
     technique='TLA+ derivation-set oracle with priority sums (MaxPrio/MinPrio over all derivations, empty-alternative precedence) evaluated by TLC on every real ambiguity=resolve result, obtained in fresh processes under several PYTHONHASHSEED values',
-    text='For every grammar (ambiguous templates, F_bnf, F_rand with random signed rule and terminal priorities), mode normal/invert/None and lexer basic/dynamic, TLC enumerates all derivations (EBNF.tla), computes their total priorities and judges the tree the real lark returned: it is a derivation, its priority is the maximum (minimum under invert) for grammars without directly empty alternatives, an empty alternative is used only where no non-empty one matches, priority=None returns what the priority-free grammar returns, and the tree is identical across 5 (quick) / 32 (thorough) hash seeds in separate processes, repeated calls and a second instance.',
+    text='For every grammar (ambiguous templates, F_bnf, F_rand with random signed rule and terminal priorities), mode normal/invert/None and lexer basic/dynamic, TLC enumerates all derivations (EBNF.tla), computes their total priorities and judges the tree the real lark returned: it is a derivation, its priority is the maximum (minimum under invert) for grammars without directly empty alternatives, an empty alternative is used only where no non-empty one matches, priority=None returns what the priority-free grammar returns, and the tree is identical across 5 (quick) / 32 (thorough) hash seeds in separate processes, repeated calls and a second instance. An overlapping-terminal family (A AB AA B BA with random terminal and rule priorities) makes terminal priorities decisive under the dynamic lexers: optimality is judged over the union of the derivations of all tokenisations.',
     note='hash-seed independence sampled, not proved; single-character terminals (terminal priorities add a constant per input)',
     ref='6/C05')
 
@@ -71,7 +71,7 @@ CHECKS['C18'] = dict(
 
 CHECKS['C13'] = dict(
     technique='TLA+ model of interactive-parser handles over a heap (in-place list extension, deep vs shallow copy) model-checked with TLC; every exported behaviour replayed on real InteractiveParser objects and re-validated by a trace specification',
-    text='TLC proves OwnHistory/NoSharing for all fork/feed/copy/as_immutable/as_mutable/accepts sequences within the bound under the code\'s copy discipline and exhibits the counterexample under a shallow one (model sensitivity); every exported behaviour is executed on real parsers of five grammars (inlined left recursion, EBNF star, ?-rule with propagate_positions, placeholders, nesting) and TraceInteractive.tla re-executes it, checking after every operation that each live fork equals a fresh parser fed the history the specification assigns to it (state stack, value stack, token positions, tree meta incl. container_*), that accepts() equals trial feeding and leaves the parser unchanged, and that feed_eof equals parse(); resume_parse is compared with parsing the text without the skipped tokens.',
+    text='TLC proves OwnHistory/NoSharing for all fork/feed/copy/as_immutable/as_mutable/accepts sequences within the bound under the code\'s copy discipline and exhibits the counterexample under a shallow one (model sensitivity); every exported behaviour is executed on real parsers of five grammars (inlined left recursion, EBNF star, ?-rule with propagate_positions, placeholders, nesting) and TraceInteractive.tla re-executes it, checking after every operation that each live fork equals a fresh parser fed the history the specification assigns to it (state stack, value stack, token positions, tree meta incl. container_*), that accepts() equals trial feeding and leaves the parser unchanged, and that feed_eof equals parse(); resume_parse is compared with parsing the text without the skipped tokens. InteractiveLex.tla models parsers that lex their own text (lexer-thread cells, the thread a handle owns vs the one its parser state refers to): TLC proves NoSkip/ResultOwn for the design in which a copy rebinds its state\'s lexer and refutes the pinned design; every exported behaviour is replayed on real parsers and TraceILex checks step by step that each real handle was fed exactly the tokens the model says.',
     note='bounded: <=3 (4) handles, <=5 (6) operations, 3 token kinds; state compared through digests',
     ref='6/C13')
 
@@ -101,25 +101,25 @@ CHECKS['C15'] = dict(
 
 CHECKS['C16'] = dict(
     technique='TLA+ machines of the four transformer traversals model-checked against the bottom-up fold over all ordered trees <=6 (8) nodes (TLC) + trace validation of real results and callback logs of the embedded transformer and the four classes against FoldT of the plain tree',
-    text='TLC proves for every ordered tree up to the bound that Transformer/_InPlaceRecursive (recursion), _NonRecursive (reversed postfix + value stack) and _InPlace (iter_subtrees order) return the fold and run each callback exactly once, children before parents; on random EBNF LALR grammars with symbolic pure callbacks (plain, inline, tree and wrapper v_args styles; the node data is part of the value) on random subsets of rules, aliases and named terminals, TLC computes FoldT of the plain parse tree and judges the value and the callback log of Lark(..., transformer=T).parse and of the four classes.',
+    text='TLC proves for every ordered tree up to the bound that Transformer/_InPlaceRecursive (recursion), _NonRecursive (reversed postfix + value stack) and _InPlace (iter_subtrees order) return the fold and run each callback exactly once, children before parents; on random EBNF LALR grammars with symbolic pure callbacks (plain, inline, tree and wrapper v_args styles; the node data is part of the value) on random subsets of rules, aliases and named terminals, TLC computes FoldT of the plain parse tree and judges the value and the callback log of Lark(..., transformer=T).parse and of the four classes. Callbacks on underscore-named and anonymous terminals (kept by ! or keep_all_tokens) are included; for the embedded transformer token callbacks are lexer callbacks (may see filtered tokens), so once-per-node is required of rule callbacks and of the four transformer classes.',
     note='callbacks only where the statement allows them; no Discard, no meta',
     ref='6/C16')
 
 CHECKS['C11'] = dict(
     technique='TLA+ model of Serialize/SerializeMemoizer over object graphs with sharing (round trip preserves the unfolding; TLC over all small DAGs) + trace validation by TLC of every call result of loaded, cached and stand-alone instances against the directly built instance, with fault-injected field coverage',
-    text='TLC proves for all DAGs of 3 (4) objects with memoised and inlined classes that deserialize(serialize(x)) has the unfolding of x; on random EBNF grammars, catalogue terminal sets (regex flags, bytes), hand-written grammars with imports, templates, priorities, several start symbols, global regex flags and >100 terminals, under seven option sets, four instances - direct, save->load, second cache= construction, module generated by python -m lark.tools.standalone - run parse, an interactive walk (tokens, accepts, result) and scan on accepted and rejected inputs and TLC compares every result (trees with token positions and meta, error class/position/expected sets) with the direct instance; one serialised field at a time is altered to measure which fields the run can observe.',
+    text='TLC proves for all DAGs of 3 (4) objects with memoised and inlined classes that deserialize(serialize(x)) has the unfolding of x; on random EBNF grammars, catalogue terminal sets (regex flags, bytes), hand-written grammars with imports, templates, priorities, several start symbols, global regex flags and >100 terminals, under seven option sets, four instances - direct, save->load, second cache= construction, module generated by python -m lark.tools.standalone - run parse, an interactive walk (tokens, accepts, result) and scan on accepted and rejected inputs and TLC compares every result (trees with token positions and meta, error class/position/expected sets) with the direct instance; one serialised field at a time is altered to measure which fields the run can observe. A history of instantiations of one stand-alone module (an instance with load-time options, then a plain one) must leave the plain instance equal to the directly built parser.',
     note='comparison through JSON renderings (the stand-alone module has its own classes); cache-key defects are C12\'s business',
     ref='6/C11')
 
 CHECKS['C17'] = dict(
     technique='TLA+ definition of what %import (renaming layers, dependencies), %override, %extend and template instantiation mean - the written-out grammar as data for the EBNF.tla semantics - evaluated by TLC against real parses of module systems written as real .lark files',
-    text='Imports.tla assembles, from a module system (main + up to two modules, multi / single / renaming imports, transitive imports, same-named local rules, %override/%extend of imported rules, templates), the grammar with every definition written out under its documented name (alias, or module__name layer by layer, aliases of alternatives included); TLC computes the shaped trees of each input from that grammar with EBNF.tla and judges language and trees of the real Lark(main.lark) under Earley and LALR; terminals built from other terminals and %extend/%override of imported terminals are covered through the spelling of the tokens.',
+    text='Imports.tla assembles, from a module system (main + up to two modules, multi / single / renaming imports, transitive imports, same-named local rules, %override/%extend of imported rules, templates), the grammar with every definition written out under its documented name (alias, or module__name layer by layer, aliases of alternatives included); TLC computes the shaped trees of each input from that grammar with EBNF.tla and judges language and trees of the real Lark(main.lark) under Earley and LALR; terminals built from other terminals and %extend/%override of imported terminals are covered through the spelling of the tokens. Templates defined in imported modules (imported by name, renamed, or reached transitively, with parameters named like rules of the importing grammar) are part of the family; the generator is collision-free so that a GrammarError of the modular grammar under Earley is a verdict.',
     note='module rule names without leading underscore (TLC strings are atomic); one import statement per module; terminal languages (finite) spelled out by the harness',
     ref='6/C17')
 
 CHECKS['C19'] = dict(
     technique='TLA+ predicate for the class the Reconstructor supports (over the compiled rules) and the space-insertion law, evaluated by TLC on every real reconstruction; round trip parse(reconstruct(tree)) == tree judged inside the class',
-    text='For random EBNF grammars with all shaping features, whitespace ignored, string and regexp terminals (including ones that start with a non-identifier and end with an identifier character) and placeholders off, every parse tree of sampled inputs goes through the real Reconstructor; TLC decides from the compiled rules whether the parser is in the supported class (filtered terminals writable, every alternative keeps an unfiltered symbol other than the rule itself, no useless rules, unambiguous by strict LALR construction) and inside it judges that reconstruct does not raise, puts blanks exactly where two identifier characters meet, and that the text re-parses to an equal tree.',
+    text='For random EBNF grammars with all shaping features, whitespace ignored, string and regexp terminals (including ones that start with a non-identifier and end with an identifier character) and placeholders off, every parse tree of sampled inputs goes through the real Reconstructor; TLC decides from the compiled rules whether the parser is in the supported class (filtered terminals writable, every alternative keeps an unfiltered symbol other than the rule itself, no useless rules, unambiguous by strict LALR construction) and inside it judges that reconstruct does not raise, puts blanks exactly where two identifier characters meet, and that the text re-parses to an equal tree. An expression/call grammar is reconstructed statement by statement in every order by one Reconstructor instance (the matcher keeps state between trees).',
     note='two known findings (?rule over an inlined repetition; alias shared by two rules)',
     ref='6/C19')
 
